@@ -226,7 +226,8 @@ def _oracle_batch(batch):
     out = []
     for d in batch:
         try:
-            out.append(oracle(d))
+            from harness.vmcheck import timed
+            out.append(timed(oracle, d, default=None))     # a hang is reported by the correspondence (TIMEOUT)
         except RecursionError:
             out.append(None)
     return out
@@ -243,7 +244,9 @@ def _real_batch(batch):
             out.append(None)
             continue
         ops, protos, stds, reprs = mi
-        out.append({"q": sx(["analyze", ops, protos, stds, reprs]), "real": anlib.real_analyze(d)})
+        from harness.vmcheck import timed, CASE_LIMIT
+        out.append({"q": sx(["analyze", ops, protos, stds, reprs]),
+                    "real": timed(anlib.real_analyze, d, default="TIMEOUT (no answer after %d s)" % CASE_LIMIT)})
     return out
 
 
